@@ -70,7 +70,7 @@ def bump_water(rng, res, target_idx, resseq=900):
 def gen_case(rng, force=None):
     """-> (pdb text, options, features)"""
     feats = {}
-    kind = rng.choice(["bump", "bump", "bump", "plain", "ss", "missing", "gap"])
+    kind = rng.choice(["bump", "bump", "bump", "plain", "ss", "missing", "gap", "partial-h"])
     if kind == "ss":
         text, opts, f = c13.gen_case(rng)
         opts = [o for o in opts if o not in ("--nodebump", "--noopt", "--whitespace", "--keep-chain")]
@@ -96,10 +96,14 @@ def gen_case(rng, force=None):
         feats["kind"] = kind
         waters = []
         if kind == "bump":
-            for k in range(rng.choice([1, 1, 2])):
-                w = bump_water(rng, res, ti, 900 + k)
+            # one or two waters; sometimes a crowd of them, so that debumping goes several rounds over the torsions
+            nw = rng.choice([1, 1, 2, 6, 9])
+            for k in range(nw):
+                w = bump_water(rng, res + [[a for ww in waters for a in ww]] if waters else res, ti, 900 + k)
                 if w:
                     waters.append(w)
+            if nw >= 6:
+                feats["kind"] = "crowd"
         if kind == "missing":
             # delete the outermost side-chain atoms of the target so that repair_heavy rebuilds them
             r = res[ti]
@@ -125,6 +129,28 @@ def gen_case(rng, force=None):
             feats["kind"] += "+atoms-" + how
         text = G.to_pdb([res], waters)
         opts = ["--ff=" + rng.choice(["AMBER", "CHARMM", "PARSE", "SWANSON", "TYL06", "PEOEPB"])]
+    if kind == "partial-h":
+        # an input that carries hydrogens, some of them missing (one hydrogen of a methyl / ammonium group,
+        # a methylene hydrogen, a backbone H): the present ones are kept, the missing ones are added
+        pre = G.run_pipeline(text, ["--ff=AMBER", "--pdb-output=@DIR@/out.pdb"])
+        hyd = pre.extra_files.get("out.pdb") if pre.status == "ok" else None
+        if hyd:
+            lines = hyd.splitlines()
+            hidx = [i for i, l in enumerate(lines) if l.startswith(("ATOM", "HETATM")) and l[12:16].strip().startswith("H") and l[17:20] not in ("HOH", "WAT")]
+            drop = set(rng.sample(hidx, max(1, len(hidx) // rng.choice([4, 8, 16])))) if hidx else set()
+            # make sure a group of three loses exactly one member, at a random slot
+            groups = {}
+            for i in hidx:
+                l = lines[i]
+                groups.setdefault((l[21:27], l[12:16].strip()[:-1]), []).append(i)
+            threes = [g for g in groups.values() if len(g) == 3]
+            if threes:
+                g = rng.choice(threes)
+                drop -= set(g)
+                drop.add(rng.choice(g))
+            text = "\n".join(l for i, l in enumerate(lines) if i not in drop) + "\n"
+        else:
+            feats["kind"] = "plain"
     mode = rng.choice(["default", "default", "default", "nodebump", "noopt", "no-motion", "ph"])
     if mode == "nodebump":
         opts.append("--nodebump")
@@ -389,6 +415,13 @@ def check_case(ctx: Ctx, drv: Driver, text, opts, feats, seen_sig):
     if r.status != "ok":
         return
     ctx.count("torsion-calls-per-run", "0" if m.torsion_calls == 0 else "1-9" if m.torsion_calls < 10 else "10+")
+    # how many times debumping switched torsion within one residue (a torsion used again after another one moved its axis)
+    import itertools
+
+    rounds = 0
+    for _res, grp in itertools.groupby([t for t in m.torsions if t["caller"] == "debump_residue"], key=lambda t: id(t["residue"])):
+        rounds = max(rounds, len([k for k, _ in itertools.groupby(t["dihedral"][2] for t in grp)]))
+    ctx.count("debump-torsion-switches-per-residue", "0" if rounds == 0 else str(rounds) if rounds < 4 else "4+")
     writer_tie(ctx, m)
     torsion_tie(ctx, drv, m, case_replay, seen_sig)
     found = oracle(m, r.biomolecule, opts)
@@ -408,7 +441,7 @@ def run(ctx: Ctx):
     drv = Driver()
     ctx.extra["rule"] = (
         "peptide windows of 1-6 residues with each of the 20 residue types forced in turn at N-terminal, internal and C-terminal positions; a water packed against a side-chain atom of the target to force debumping; "
-        "missing outer side-chain atoms (repair); disulfide pairs from the C13 generator; options default / --nodebump / --noopt / --clean / --assign-only / --nodebump --noopt / PROPKA at five pH values; six force fields; "
+        "crowds of 6-9 waters around long side chains (several debump rounds over the torsions of one residue); missing outer side-chain atoms (repair); disulfide pairs from the C13 generator; options default / --nodebump / --noopt / --clean / --assign-only / --nodebump --noopt / PROPKA at five pH values; six force fields; "
         "a case is (kind, option mode, target residue type, position); distinct counts distinct tuples and distinct (definition, patches, torsion) triples met in set_dihedral_angle"
     )
     seen_sig = set()
@@ -419,6 +452,22 @@ def run(ctx: Ctx):
         check_case(ctx, drv, text, opts, feats, seen_sig)
         if ci < 2:
             ctx.sample({"options": opts, "features": feats, "pdb_head": text.splitlines()[:3]})
+    # crowded long side chains: debumping goes several rounds over the torsions of one residue
+    # (chi-1, chi-2, chi-1, chi-2 …), so a torsion is used again after another one has moved its axis
+    for ci in range(ctx.scale(8, 250)):
+        target = ["LEU", "LYS", "ARG", "MET", "GLN", "GLU", "ILE", "PHE", "TYR", "ASN"][ci % 10]
+        _f, res = G.window(rng, rng.choice([3, 4]), must_have=target)
+        G.set_chain(res, "A", 1)
+        ti = next(i for i, r in enumerate(res) if r[0].resn == target)
+        waters = []
+        for k in range(rng.choice([6, 9])):
+            w = bump_water(rng, res + [[a for ww in waters for a in ww]] if waters else res, ti, 900 + k)
+            if w:
+                waters.append(w)
+        text = G.to_pdb([res], waters)
+        opts = ["--ff=" + rng.choice(["AMBER", "PARSE", "CHARMM"])]
+        feats = {"kind": "crowd-long-side-chain", "mode": "default", "target": target, "pos": "N" if ti == 0 else "C" if ti == len(res) - 1 else "mid"}
+        check_case(ctx, drv, text, opts, feats, seen_sig)
     if SEARCH:
         targeted_search(ctx, seen_sig)
 
